@@ -1,4 +1,5 @@
 import LaunchpadModel.Model.Sg1
+import LaunchpadModel.Lemmas.Protobuf
 /-!
 # C06 — Fee splits are exact: parts always sum to the fee, in the documented ratios
 
@@ -279,5 +280,117 @@ example : fairBurn 9 9 none = [Msg.burn ⟨0, 4⟩, Msg.fundPool 9 ⟨0, 5⟩] :
 example : mayPay [⟨NATIVE, 7⟩] NATIVE = .ok 7 ∧ (5 ≤ 7) ∧ (7 ≠ 0) := by simp [mayPay]
 example : distributeMintFees ⟨0, 101⟩ true (some 7) =
     [Msg.send 7 ⟨0, 51⟩, Msg.send LIQUIDITY_DAO ⟨0, 7⟩, Msg.send LAUNCHPAD_DAO ⟨0, 43⟩] := by decide
+
+/-! ## Round 5: the protobuf bytes of `MsgFundFairburnPool` are inside the model (`LP.Pb`, `Model/Protobuf.lean`)
+
+`fair_burn` with no developer sends the remainder with a STARGATE message whose bytes `packages/sg1` builds itself with the `anybuf`
+crate (`encode_msg_fund_fairburn_pool`). `Pb.encodeFundFairburnPool` is that encoder (compared byte for byte with the real message on
+every `pb` line of the harness), `Pb.decodeFundFairburnPool` a strict total decoder. -/
+
+/-- base-128 varints: reading back what was written gives the number and leaves the rest of the input untouched -/
+theorem C06_proto_varint_roundtrip (n : Nat) (rest : Pb.Bytes) :
+    Pb.decVarint (Pb.encVarint n ++ rest) = some (n, rest) := Pb.decVarint_encVarint n rest
+
+/-- every varint byte is a byte, and every byte but the last carries the continuation bit -/
+theorem C06_proto_varint_bytes (n : Nat) : ∀ b ∈ Pb.encVarint n, b < 256 := by
+  induction n using Nat.strongRecOn with
+  | _ n ih =>
+    rw [Pb.encVarint]
+    by_cases h : n < 128
+    · simp [h]; omega
+    · simp only [h, if_false, List.mem_cons]
+      rintro b (rfl | hb)
+      · omega
+      · exact ih (n / 128) (by omega) b hb
+
+/-- "the remainder is sent to the fair-burn pool": the message round-trips — for ALL sender / denom / amount byte strings (the sender
+may be empty: an omitted field decodes to the empty string), under the one well-formedness condition the encoder needs: no coin is the
+all-default message (denom and amount both empty), because `anybuf::append_message` omits an empty nested message altogether. -/
+theorem C06_proto_roundtrip (sender : Pb.Bytes) (coins : List (Pb.Bytes × Pb.Bytes)) (h : Pb.coinsWF coins = true) :
+    Pb.decodeFundFairburnPool (Pb.encodeFundFairburnPool sender coins) = some (sender, coins) :=
+  Pb.decode_encode sender coins h
+
+/-- the shape `sg1` emits: exactly one coin -/
+theorem C06_proto_roundtrip_one (sender denom amount : Pb.Bytes) (h : denom ≠ [] ∨ amount ≠ []) :
+    Pb.decodeFundFairburnPool (Pb.encodeFundFairburnPool sender [(denom, amount)]) = some (sender, [(denom, amount)]) := by
+  apply Pb.decode_encode
+  cases denom <;> cases amount <;> simp_all [Pb.coinsWF]
+
+/-- the excluded case: a coin whose denom and amount are both empty leaves no trace in the bytes (prost would write `12 00`) … -/
+theorem C06_proto_empty_coin_dropped (sender : Pb.Bytes) (coins : List (Pb.Bytes × Pb.Bytes)) :
+    Pb.encodeFundFairburnPool sender (([], []) :: coins) = Pb.encodeFundFairburnPool sender coins := by
+  simp [Pb.encodeFundFairburnPool, Pb.encodeCoins, Pb.encodeCoin, Pb.appendBytes]
+
+/-- … so it does not round-trip: it is lost -/
+theorem C06_proto_empty_coin_lost (sender : Pb.Bytes) (coins : List (Pb.Bytes × Pb.Bytes)) (h : Pb.coinsWF coins = true) :
+    Pb.decodeFundFairburnPool (Pb.encodeFundFairburnPool sender (([], []) :: coins)) = some (sender, coins) := by
+  rw [C06_proto_empty_coin_dropped]; exact Pb.decode_encode sender coins h
+
+/-- distinct (sender, coins) give distinct bytes -/
+theorem C06_proto_injective (s s' : Pb.Bytes) (cs cs' : List (Pb.Bytes × Pb.Bytes))
+    (h : Pb.coinsWF cs = true) (h' : Pb.coinsWF cs' = true)
+    (he : Pb.encodeFundFairburnPool s cs = Pb.encodeFundFairburnPool s' cs') : s = s' ∧ cs = cs' := by
+  have h1 := Pb.decode_encode s cs h
+  rw [he, Pb.decode_encode s' cs' h'] at h1
+  simp only [Option.some.injEq, Prod.mk.injEq] at h1
+  exact ⟨h1.1.symm, h1.2.symm⟩
+
+/-- `Uint128::to_string` read back as a number -/
+theorem C06_proto_decimal_roundtrip (n : Nat) : Pb.parseDec (Pb.decDigits n) = n := Pb.parseDec_decDigits n
+
+theorem C06_proto_decimal_injective (m n : Nat) (h : Pb.decDigits m = Pb.decDigits n) : m = n := by
+  rw [← Pb.parseDec_decDigits m, h, Pb.parseDec_decDigits]
+
+/-- "… to the fair-burn pool ON BEHALF OF THE CALLING CONTRACT": the Stargate message `fair_burn` emits without a developer, encoded
+and decoded again, names the caller as sender and carries exactly one coin: the remainder `F − floor(F/2)` (as decimal digits that
+read back as that number) in the native denom — whatever byte strings the ids stand for. -/
+theorem C06_proto_sender_is_caller (addrB : Addr → Pb.Bytes) (denomB : Denom → Pb.Bytes) (self : Addr) (F : Nat) :
+    (Pb.firstStargate addrB denomB (fairBurn self F none)).bind Pb.decodeFundFairburnPool
+        = some (addrB self, [(denomB NATIVE, Pb.decDigits (F - F / 2))])
+      ∧ Pb.parseDec (Pb.decDigits (F - F / 2)) = F - F / 2 := by
+  refine ⟨?_, Pb.parseDec_decDigits _⟩
+  rw [C06_fairburn]
+  simp only [Pb.firstStargate, Pb.encodeMsg, Option.bind]
+  exact C06_proto_roundtrip_one _ _ _ (Or.inr (Pb.decDigits_ne_nil _))
+
+/-- the same through `checked_fair_burn` (the entry the factories, whitelists and Shuffle use): sender = `env.contract.address` -/
+theorem C06_proto_sender_is_caller_checked (addrB : Addr → Pb.Bytes) (denomB : Denom → Pb.Bytes) (self : Addr) (F pay : Nat)
+    (hp : F ≤ pay) (h0 : pay ≠ 0) :
+    ∃ ms, checkedFairBurn [⟨NATIVE, pay⟩] self F none = .ok ms ∧
+      (Pb.firstStargate addrB denomB ms).bind Pb.decodeFundFairburnPool
+        = some (addrB self, [(denomB NATIVE, Pb.decDigits (F - F / 2))]) := by
+  refine ⟨fairBurn self F none, ?_, (C06_proto_sender_is_caller addrB denomB self F).1⟩
+  have : ¬ pay < F := by omega
+  simp [checkedFairBurn, mayPay, bind, Except.bind, pure, Except.pure, this, h0]
+
+/-- with a developer there is no Stargate message at all -/
+theorem C06_proto_no_stargate_with_dev (addrB : Addr → Pb.Bytes) (denomB : Denom → Pb.Bytes) (self d : Addr) (F : Nat) :
+    Pb.firstStargate addrB denomB (fairBurn self F (some d)) = none := by
+  rw [C06_fairburn]; rfl
+
+/-- the unit test vector of `packages/sg1` (`fair_burn("sender", 9, None)`: 5 ustars), byte for byte:
+`0a 06 "sender" 12 0b ( 0a 06 "ustars" 12 01 "5" )` -/
+example : (Pb.firstStargate (fun _ => [115, 101, 110, 100, 101, 114]) (fun _ => Pb.ustars) (fairBurn 9 9 none))
+    = some [0x0a, 6, 115, 101, 110, 100, 101, 114, 0x12, 11, 0x0a, 6, 117, 115, 116, 97, 114, 115, 0x12, 1, 53] := by
+  rw [C06_fairburn]
+  simp [Pb.firstStargate, Pb.encodeMsg, Pb.encodeFundFairburnPool, Pb.encodeCoins, Pb.encodeCoin, Pb.appendBytes, Pb.encLen,
+    Pb.encVarint, Pb.decDigits, Pb.ustars]
+/-- a two-byte varint: 300 = `ac 02` -/
+example : Pb.encVarint 300 = [0xac, 0x02] := by simp [Pb.encVarint]
+example : Pb.decDigits 340282366920938463463374607431768211455 =
+    [51,52,48,50,56,50,51,54,54,57,50,48,57,51,56,52,54,51,52,54,51,51,55,52,54,48,55,52,51,49,55,54,56,50,49,49,52,53,53] := by
+  simp [Pb.decDigits]
+/-- the well-formedness hypothesis is satisfiable and the excluded case is real -/
+example : Pb.coinsWF [(Pb.ustars, [53])] = true := by decide
+example : Pb.coinsWF [([], [])] = false := by decide
+/-- a non-canonical encoding decodes too (the decoder is not injective; the ENCODER is): `0a 00 12 00` = empty sender, one empty coin -/
+example : Pb.decodeFundFairburnPool [0x0a, 0, 0x12, 0] = some ([], [([], [])]) := by decide
+
+/-- the encoder's output is a byte string (every element < 256) whenever sender, denoms and amounts are; decimal digits are -/
+theorem C06_proto_bytes (sender : Pb.Bytes) (coins : List (Pb.Bytes × Pb.Bytes)) (hs : Pb.isBytes sender)
+    (hc : ∀ c ∈ coins, Pb.isBytes c.1 ∧ Pb.isBytes c.2) : Pb.isBytes (Pb.encodeFundFairburnPool sender coins) :=
+  Pb.isBytes_append (Pb.appendBytes_isBytes 1 hs) (Pb.encodeCoins_isBytes coins hc)
+
+theorem C06_proto_decimal_bytes (n : Nat) : Pb.isBytes (Pb.decDigits n) := Pb.decDigits_isBytes n
 
 end LP
